@@ -550,6 +550,28 @@ def c12_geff_case(case):
     d = _tmp()
     try:
         geff.write(g, d / "s.zarr", axis_names=None)
+        if malformed:
+            import zarr
+            z = zarr.open(str(d / "s.zarr"), mode="r+")
+            if malformed == "dup-id":
+                a = z["nodes/ids"][:]
+                a[-1] = a[0]
+                z["nodes/ids"][:] = a
+            elif malformed == "unknown-parent":
+                a = z["edges/ids"][:]
+                a[0, 0] = 777
+                z["edges/ids"][:] = a
+            elif malformed == "self-link":
+                a = z["edges/ids"][:]
+                a[0, 0] = a[0, 1]
+                z["edges/ids"][:] = a
+            try:
+                tr = import_from_geff(d / "s.zarr", node_name_map=nmap)
+            except ValueError:
+                return []
+            except Exception as e:  # noqa: BLE001
+                return [vio("C12", "malformed-wrong-exception", f"{malformed}: {type(e).__name__}: {str(e)[:200]}", case, "import_from_geff", cls + ":" + malformed)]
+            return [vio("C12", "malformed-accepted", f"{malformed}: imported {tr.graph.number_of_nodes()} nodes / {tr.graph.number_of_edges()} edges without error", case, "import_from_geff", cls + ":" + malformed)]
         try:
             has_edges = g.number_of_edges() > 0  # a store without edges has no edge properties
             tr = import_from_geff(d / "s.zarr", node_name_map=nmap, node_features={"score": False},
@@ -588,3 +610,10 @@ def c12_geff_cases(tier):
                         if q and scheme in ("zero", "desc") and naming == "renamed":
                             continue
                         yield ("geff", sj, scheme, ndim, naming, pos_mode, None)
+    for seed in worlds.forests(3, 3, 2):
+        if not seed["edges"]:
+            continue
+        sj = worlds.seed_to_json(seed)
+        for mal in ("dup-id", "unknown-parent", "self-link"):
+            for scheme in ("seq", "gaps"):
+                yield ("geff", sj, scheme, 3, "std", "std", mal)
